@@ -20,7 +20,7 @@ import (
 // cone of influence of a goal.
 
 const (
-	sRef  = "(_ BitVec 32)"
+	sRef  = "Int"
 	sBool = "Bool"
 	sF64  = "(_ FloatingPoint 11 53)"
 	sStr  = "Str"
@@ -34,6 +34,7 @@ func sArr(i, e string) string {
 type defn struct {
 	name string
 	line string // full SMT command
+	weak string // sound weakening used in mode >= 1 (quantified assumption dropped)
 }
 
 type Ctx struct {
@@ -72,7 +73,7 @@ func sanitize(s string) string {
 func (c *Ctx) fresh(prefix, sort string) string {
 	n := c.name(prefix)
 	c.idx[n] = len(c.defs)
-	c.defs = append(c.defs, defn{n, fmt.Sprintf("(declare-const %s %s)", n, sort)})
+	c.defs = append(c.defs, defn{name: n, line: fmt.Sprintf("(declare-const %s %s)", n, sort)})
 	return n
 }
 
@@ -84,7 +85,23 @@ func (c *Ctx) define(prefix, sort, term string) string {
 	}
 	n := c.name(prefix)
 	c.idx[n] = len(c.defs)
-	c.defs = append(c.defs, defn{n, fmt.Sprintf("(define-fun %s () %s %s)", n, sort, term)})
+	c.defs = append(c.defs, defn{name: n, line: fmt.Sprintf("(define-fun %s () %s %s)", n, sort, term)})
+	return n
+}
+
+// defineGuard is define for path guards: when the added conjunct is quantified, a weaker
+// alternative without it is recorded (dropping an assumption is always sound).
+func (c *Ctx) defineGuard(prev, conj string) string {
+	n := c.name("g")
+	c.idx[n] = len(c.defs)
+	d := defn{name: n, line: fmt.Sprintf("(define-fun %s () Bool %s)", n, and(prev, conj))}
+	if strings.Contains(conj, "(forall") {
+		d.weak = fmt.Sprintf("(define-fun %s () Bool %s)", n, and(prev, "true"))
+		if prev == "true" || prev == "" {
+			d.weak = fmt.Sprintf("(define-fun %s () Bool true)", n)
+		}
+	}
+	c.defs = append(c.defs, d)
 	return n
 }
 
@@ -114,9 +131,16 @@ func (c *Ctx) query(asserts []string, extra []string) string {
 }
 
 // queryMode: mode 0 = full; 1 = non-recursive spec functions opaque (sound weakening);
-// 2 = additionally drop quantified prelude axioms (used for cover/sat checks).
+// 2 = additionally drop quantified prelude axioms (used for cover/sat checks);
+// 3 = like 2 but with every definition of the run included (model extraction).
 func (c *Ctx) queryMode(asserts []string, extra []string, mode int) string {
 	need := map[int]bool{}
+	if mode == 3 {
+		for i := range c.defs {
+			need[i] = true
+		}
+		mode = 2
+	}
 	var stack []string
 	push := func(s string) {
 		for _, t := range tokens(s) {
@@ -188,7 +212,7 @@ func (c *Ctx) queryMode(asserts []string, extra []string, mode int) string {
 	b.WriteString("(set-option :produce-models true)\n(set-logic ALL)\n")
 	b.WriteString("(declare-sort Str 0)\n")
 	for i, p := range c.prelude {
-		if !needPre[i] {
+		if !needPre[i] && !strings.HasPrefix(p, "(declare-sort") {
 			continue
 		}
 		if mode >= 1 {
@@ -211,7 +235,11 @@ func (c *Ctx) queryMode(asserts []string, extra []string, mode int) string {
 		}
 	}
 	for _, i := range idxs {
-		b.WriteString(c.defs[i].line)
+		if mode >= 1 && c.defs[i].weak != "" {
+			b.WriteString(c.defs[i].weak)
+		} else {
+			b.WriteString(c.defs[i].line)
+		}
 		b.WriteByte('\n')
 	}
 	for _, a := range extra {
@@ -318,7 +346,9 @@ func mask(w int) uint64 {
 	}
 	return (uint64(1) << uint(w)) - 1
 }
-func refLit(v uint64) string { return bvLit(v, 32) }
+func refLit(v uint64) string { return fmt.Sprintf("%d", v) }
+func refLt(a, b string) string { return "(< " + a + " " + b + ")" }
+func refLe(a, b string) string { return "(<= " + a + " " + b + ")" }
 
 // ---------------------------------------------------------------------------
 // Solver runner
@@ -352,7 +382,18 @@ var solvers = []solverSpec{
 	{"z3-4.8.12", func(f string, s int) []string { return []string{"z3", fmt.Sprintf("-T:%d", s), f} }},
 }
 
+var procSem = make(chan struct{}, 16)
+
 func runOne(ctx context.Context, sp solverSpec, file string, secs int) SolveResult {
+	select {
+	case procSem <- struct{}{}:
+	case <-ctx.Done():
+		return SolveResult{Solver: sp.name, Status: "cancelled"}
+	}
+	defer func() { <-procSem }()
+	if ctx.Err() != nil {
+		return SolveResult{Solver: sp.name, Status: "cancelled"}
+	}
 	argv := sp.argv(file, secs)
 	cctx, cancel := context.WithTimeout(ctx, time.Duration(secs+5)*time.Second)
 	defer cancel()
@@ -375,6 +416,10 @@ func runOne(ctx context.Context, sp solverSpec, file string, secs int) SolveResu
 			first = l
 			break
 		}
+	}
+	if strings.Contains(out.String(), "(error") {
+		// a rejected script proves nothing, whatever the solver prints afterwards
+		first = ""
 	}
 	switch first {
 	case "unsat", "sat", "unknown", "timeout":
